@@ -149,10 +149,10 @@ def shell_opts(rng: random.Random, want_multiclient: bool = False, small: bool =
 def gen_shell_case(rng: random.Random, want_multiclient: Optional[bool] = None,
                    small: bool = False, hostile_text: bool = False, mc_decoys: str = 'random',
                    mc_position: Optional[str] = None, mc_shape: Optional[int] = None,
-                   name_families: Optional[float] = None):
+                   name_families: Optional[float] = None, accept=None):
     """(gen, entry, cfg encoding, info): one model, one encapsulee, one valid configuration."""
     wmc = rng.random() < 0.4 if want_multiclient is None else want_multiclient
-    for _attempt in range(50):
+    for _attempt in range(400):
         gen = ModelGen(rng, shell_opts(rng, wmc, small, mc_decoys, mc_shape, name_families))
         gen.build_skeleton()
         o = gen.o
@@ -194,6 +194,8 @@ def gen_shell_case(rng: random.Random, want_multiclient: Optional[bool] = None,
         if not ents:
             continue
         ent = rng.choice(ents)
+        if accept is not None and not accept(comp_info(gen, ent)):
+            continue
         enc = rand_cfg(rng, gen, ent, multiclient=wmc, hostile_text=hostile_text)
         if mc_position and enc.get('multiclient'):
             place_multiclient_port(rng, gen, ent, enc, mc_position)
